@@ -56,7 +56,11 @@ theorem conflicts_complete (t : List Access) (h : conflicts t = []) : raceFree t
         simp at hm
     have oksymm : ∀ x y : Access, ok x y = ok y x := by
       intro x y
+      have hs : sameOnce x.sync y.sync = sameOnce y.sync x.sync := by
+        cases x.sync <;> cases y.sync <;> simp only [sameOnce]
+        exact BEq.comm
       unfold ok
+      rw [hs]
       cases mutexOf x.sync with
       | none => cases mutexOf y.sync <;> simp only [] <;> ac_rfl
       | some m =>
@@ -90,8 +94,13 @@ theorem locales_synchronised : raceFree (only "locales.DefaultLocales" Gen.LockS
 /-- the access rows of the lazy cache before `fix: the lazy schema's cached inner schema is an atomic.Pointer` -/
 def legacyLazy : List Access := [
   ⟨"types.ZodLazy.cloneState", "types.ZodLazyInternals.innerType", false, .none⟩,
-  ⟨"types.ZodLazy.resolveInner", "types.ZodLazyInternals.innerType", false, .once⟩,
-  ⟨"types.ZodLazy.resolveInner", "types.ZodLazyInternals.innerType", true, .once⟩]
+  ⟨"types.ZodLazy.resolveInner", "types.ZodLazyInternals.innerType", false, .once "types.ZodLazyInternals.once"⟩,
+  ⟨"types.ZodLazy.resolveInner", "types.ZodLazyInternals.innerType", true, .once "types.ZodLazyInternals.once"⟩]
+
+/-- two accesses under DIFFERENT sync.Once objects are not ordered: `ok` asks for the same Once (round 4b) -/
+theorem once_needs_same_once :
+    ok ⟨"f", "x", true, .once "p.A.once"⟩ ⟨"g", "x", false, .once "p.B.once"⟩ = false ∧
+    ok ⟨"f", "x", true, .once "p.A.once"⟩ ⟨"g", "x", false, .once "p.A.once"⟩ = true := by decide
 
 /-- **Witness** (legacy code): every chaining call on a lazy schema read the lazily resolved inner schema (`cloneState`)
     with no synchronisation, while the first Parse wrote it inside `once.Do`. -/
